@@ -81,7 +81,9 @@ def replay_history(params, hist):
     with common.private_tmp() as tmp:
         src, rows = mk_source(params['N'], params['FailAt'])
         solo = solo_pass(rows)
-        view = etl.sort(src, 'k', buffersize=params['B'], cache=params['cache'], tempdir=tmp)
+        # the temp directory given as str or (every third history) as bytes, which tempfile accepts as well
+        td = os.fsencode(tmp) if (len(hist) + params['N']) % 3 == 0 else tmp
+        view = etl.sort(src, 'k', buffersize=params['B'], cache=params['cache'], tempdir=td)
         its = {}
         drift = None
         for n, ev in enumerate(hist):
@@ -92,6 +94,8 @@ def replay_history(params, hist):
                 its.pop(i, None)
             elif a == 'dropview':
                 view = None
+            elif a == 'clearcache':
+                view.clearcache()
             else:
                 want = ev['res']
                 try:
@@ -147,6 +151,69 @@ def generic_views(tmp):
         ('fromdicts(generator)', lambda: etl.fromdicts(gen_dicts(4))),
         ('fromdicts(generator,sample=1)', lambda: etl.fromdicts(gen_dicts(4), sample=1)),
     ]
+
+
+def check_failing_spill(chk):
+    """fromdicts(<generator>) whose rows cannot all be pickled into the spill file: whatever sequence of passes is tried,
+    the rows before the bad one are delivered, and nothing is left behind once view and iterators are released."""
+    import petl as etl
+    for bad_at in (1, 2, 4):
+        for plan in ('one pass', 'two passes', 'interleaved', 'partial then full'):
+            with common.private_tmp() as tmp:
+                def gen():
+                    for i in range(1, 6):
+                        yield {'k': i, 'v': (UNPICKLABLE if i == bad_at else 'r%d' % i)}
+                msg = None
+                try:
+                    view = etl.fromdicts(gen(), header=['k', 'v'])
+                    its = [iter(view)] + ([iter(view)] if plan == 'interleaved' else [])
+                    outs = [[] for _ in its]
+                    alive = list(range(len(its)))
+                    step = 0
+                    while alive and step < 40:
+                        step += 1
+                        for j in list(alive):
+                            try:
+                                outs[j].append(tuple(next(its[j])))
+                            except StopIteration:
+                                alive.remove(j)
+                            except DUMP_ERRORS:
+                                alive.remove(j)
+                            if plan == 'partial then full' and len(outs[j]) == 1 and len(its) == 1:
+                                its.append(iter(view))
+                                outs.append([])
+                                alive.append(1)
+                    if plan == 'two passes':
+                        try:
+                            outs.append([tuple(r) for r in view])
+                        except DUMP_ERRORS:
+                            pass
+                    for o in outs:
+                        want = [('k', 'v')] + [(i, 'r%d' % i) for i in range(1, bad_at)]
+                        if o[:len(want)] != want[:len(o)] or any(r[1] is UNPICKLABLE for r in o[1:] if len(r) > 1 and r[0] != bad_at):
+                            msg = 'delivered %r, the rows before the bad one are %r' % (o, want)
+                    del its, view
+                except Exception as e:
+                    msg = 'raised %r' % (e,)
+                    its = view = None
+                left = nfiles(tmp)
+                chk.count(('failing-spill', bad_at, plan))
+                chk.replayed += 1
+                if msg or left:
+                    chk.violation({'op': 'fromdicts(generator)', 'kind': 'tempfile'},
+                                  'fromdicts(generator) with an unpicklable value in row %d, %s: %s; %d temporary file(s) remain after release'
+                                  % (bad_at, plan, msg or 'deliveries fine', left), {'kind': 'failing-spill', 'bad_at': bad_at, 'plan': plan})
+
+
+GENERIC_NAMES = ['join', 'leftjoin(nocache)', 'mergesort', 'complement', 'distinct', 'duplicates', 'aggregate', 'rowreduce', 'groupselectmin',
+                 'pivot', 'sort(key=None)', 'fromdicts(generator)', 'fromdicts(generator,sample=1)']
+
+
+def _generic_job(j):
+    name, sched, dv = j
+    with common.private_tmp() as tmp:
+        mk = dict(generic_views(tmp))[name]
+        return replay_generic(name, mk, sched, dv, tmp)
 
 
 def replay_generic(name, mk, sched, dropview_at, tmp):
@@ -243,6 +310,12 @@ def record_traces(n, seed):
                     i = rng.choice(sorted(its))
                     its.pop(i)
                     a, res = 'drop', 0
+                elif view is not None and c < 0.975:
+                    had = bool(getattr(view, '_filecache', None)) or getattr(view, '_memcache', None) is not None
+                    view.clearcache()
+                    if not had:
+                        continue                  # nothing cached: not a step of the model
+                    i, a, res = 0, 'clearcache', 0
                 elif view is not None:
                     view = None
                     i, a, res = 0, 'dropview', 0
@@ -253,6 +326,66 @@ def record_traces(n, seed):
             view = None
             evs.append({'i': 0, 'a': 'end', 'res': 0, 'files': nfiles(tmp)})
         traces.append({'N': N, 'B': B, 'cache': cache, 'FailAt': fail, 'events': evs})
+    return traces
+
+
+def directed_traces():
+    """Systematic (not random) histories around cache invalidation: a complete first pass, then TWO iterators served from
+    the file cache advanced to every pair of positions, then clearcache() / release of the view / nothing, then both are
+    exhausted in either order.  Recorded like the random ones and judged by SortFilesTrace."""
+    import petl as etl
+    traces = []
+    for N, B in ((2, 1), (3, 2)):
+        for a in range(0, 3):
+            for b in range(0, 3):
+                for inval in ('clearcache', 'dropview', 'none'):
+                    for order in ((2, 3), (3, 2)):
+                        evs = []
+                        with common.private_tmp() as tmp:
+                            src, rows = mk_source(N, 0)
+                            solo = solo_pass(rows)
+                            view = etl.sort(src, 'k', buffersize=B, cache=True, tempdir=tmp)
+                            its, pos = {}, {}
+
+                            def ev(i, act, res):
+                                evs.append({'i': i, 'a': act, 'res': res, 'files': nfiles(tmp)})
+
+                            def do_next(i):
+                                try:
+                                    got = tuple(next(its[i]))
+                                    res = pos[i] + 1 if (pos[i] < len(solo) and got == solo[pos[i]]) else -2
+                                    pos[i] += 1
+                                except StopIteration:
+                                    res = 0 if pos[i] == len(solo) else -2
+                                    its.pop(i)
+                                except Exception:
+                                    res = -2
+                                    its.pop(i)
+                                ev(i, 'next', res)
+                                return res
+                            its[1], pos[1] = iter(view), 0
+                            ev(1, 'iter', 0)
+                            while 1 in its:
+                                do_next(1)
+                            for i, k in ((2, a), (3, b)):
+                                its[i], pos[i] = iter(view), 0
+                                ev(i, 'iter', 0)
+                                for _ in range(k):
+                                    do_next(i)
+                            if inval == 'clearcache':
+                                view.clearcache()
+                                ev(0, 'clearcache', 0)
+                            elif inval == 'dropview':
+                                view = None
+                                ev(0, 'dropview', 0)
+                            for i in order:
+                                while i in its:
+                                    if do_next(i) == -2:
+                                        break
+                            its.clear()
+                            view = None
+                            evs.append({'i': 0, 'a': 'end', 'res': 0, 'files': nfiles(tmp)})
+                        traces.append({'N': N, 'B': B, 'cache': True, 'FailAt': 0, 'events': evs})
     return traces
 
 
@@ -304,35 +437,38 @@ def run(tier, seed):
             dict(N=5, B=2, cache=True, NIter=3, FailAt=0), dict(N=5, B=2, cache=True, NIter=3, FailAt=104),
             dict(N=4, B=3, cache=False, NIter=3, FailAt=102)]
     total = 0
-    for params in configs:
-        hs, r = gen_histories(params)
-        if not full and len(hs) > 150:
-            hs = rng.sample(hs, 150)
-        total += len(hs)
-        for h in hs:
-            _one(chk, params, h)
-    for params in sims:
-        hs, r = gen_histories(dict(params, MaxSteps=30), sim='num=%d' % (1500 if full else 80), seed=seed + 7)
-        total += len(hs)
-        for h in hs:
-            _one(chk, params, h)
+    # one TLC run per configuration, several at a time (each job forks, runs a single-worker JVM and samples its histories)
+    gjobs_ = [(p_, None, 0, 0 if full else 150, seed) for p_ in configs] + \
+             [(dict(p_, MaxSteps=30), 'num=%d' % (1500 if full else 80), seed + 7, 0, seed) for p_ in sims]
+    gen_all = common.pmap(_gen_job, gjobs_, procs=6, chunksize=1, min_items=2)
+    gen_c, gen_s = gen_all[:len(configs)], gen_all[len(configs):]
+    todo = []
+    for params, hs in zip(configs, gen_c):
+        todo += [(params, h) for h in hs]
+    for params, hs in zip(sims, gen_s):
+        todo += [(params, h) for h in hs]
+    total = len(todo)
+    for (params, h), res in zip(todo, common.pmap(_hist_job, todo)):
+        _one(chk, params, h, res)
     if total < 300:
         raise tlc.MachineryError('only %d histories generated' % total)
     # generic: sort-backed operators and the spill file
     from harness import c01
     s2, s3 = c01.gen_schedules(seed, False)
-    with common.private_tmp() as tmp:
-        for name, mk in generic_views(tmp):
-            scheds = rng.sample(s2 + s3, 50 if not full else 600)
-            for sched in scheds:
-                dv = rng.randrange(0, len(sched) + 1)
-                msg = replay_generic(name, mk, sched, dv, tmp)
+    gjobs = []
+    for name in GENERIC_NAMES:
+        for sched in rng.sample(s2 + s3, 50 if not full else 600):
+            gjobs.append((name, sched, rng.randrange(0, len(sched) + 1)))
+    if True:
+        if True:
+            for (name, sched, dv), msg in zip(gjobs, common.pmap(_generic_job, gjobs)):
                 chk.count(('generic', name, json.dumps(sched), dv))
                 chk.replayed += 1
                 if msg:
                     chk.violation({'op': name, 'kind': 'tempfile'}, '%s schedule=%r view released before step %d: %s' % (name, sched, dv + 1, msg),
                                   {'kind': 'generic', 'view': name, 'schedule': sched, 'dropview_at': dv})
-    traces = record_traces(2000 if full else 300, seed)
+    check_failing_spill(chk)
+    traces = record_traces(2000 if full else 300, seed) + directed_traces()
     validate_traces(chk, traces, seed)
     chk.exhaustive = False
     chk.assumptions = ['CPython reference counting + gc.collect(); Linux unlink semantics',
@@ -345,8 +481,20 @@ def run(tier, seed):
                            'validated by SortFilesTrace')
 
 
-def _one(chk, params, h):
-    msg, drift = replay_history(params, h)
+def _gen_job(j):
+    params, sim, simseed, cap, seed = j
+    hs, _r = gen_histories(params, sim=sim, seed=simseed)
+    if cap and len(hs) > cap:
+        hs = random.Random(seed + len(hs)).sample(hs, cap)
+    return hs
+
+
+def _hist_job(j):
+    return replay_history(j[0], j[1])
+
+
+def _one(chk, params, h, res=None):
+    msg, drift = res if res is not None else replay_history(params, h)
     chk.count(('hist', json.dumps(params, sort_keys=True), json.dumps([(e['i'], e['a']) for e in h])))
     chk.replayed += 1
     if msg:
